@@ -111,8 +111,9 @@ def gen_case(rng, rich_criterion=False, small=False):
         if rng.random() < 0.5 or "odd_field" not in params:
             params["odd_config"] = rng.choice(["status", "trial_id", "iter"])
     params["polls_budget"] = profile["polls"]
+    nonfinite = rich_criterion and rng.random() < 0.14
     if rich_criterion or rng.random() < 0.2:
-        params["num_type"] = rng.choice(scripted.NUM_TYPES)
+        params["num_type"] = rng.choice(scripted.NUM_TYPES[:3] if nonfinite else scripted.NUM_TYPES)
         if params["num_type"] in ("int", "np.int64"):
             profile["int_values"] = True
             for k in ("min_metric_value", "max_metric_value"):   # thresholds inside the integer range 0..10
@@ -120,6 +121,20 @@ def gen_case(rng, rich_criterion=False, small=False):
                     params["criterion"][k] = float(rng.randint(1, 3) if k.startswith("min") else rng.randint(7, 9))
             if "max_cost" in params["criterion"]:
                 params["criterion"]["max_cost"] = float(rng.randint(0, 20))
+    if nonfinite:
+        # diverged evaluations: NaN / +-inf as metric values, half of the time NaN as the FIRST value of the run, with a
+        # threshold on that metric that finite values reported later cross (metric grid 0..10, thresholds inside)
+        profile.update(p_nonfinite=rng.choice([0.0, 0.1, 0.3]), first_nan=rng.random() < 0.6, p_first_report=1.0)
+        f = rng.choice(["min_metric_value", "max_metric_value", "both"])
+        crit = {k: v for k, v in params["criterion"].items() if k not in ("min_metric_value", "max_metric_value")}
+        if rng.random() < 0.5:
+            crit = {k: v for k, v in crit.items() if k in ("max_wallclock_time",)}
+        if f in ("min_metric_value", "both"):
+            crit["min_metric_value"] = rng.randint(2, 16) / 4.0
+        if f in ("max_metric_value", "both"):
+            crit["max_metric_value"] = rng.randint(24, 38) / 4.0
+        params["criterion"] = crit
+        style = "nonfinite_metrics"
     if rich_criterion:
         u = rng.random()
         if u < 0.04:      # zero budgets: the criterion holds before anything happened
@@ -617,6 +632,12 @@ def scripted_runs(ctx, cases, checker, prop_name, shard=20):
                               case=rep, signature=dict(check="sjwd_false", event="started_trial_never_polled"))
         if out["outcome"][0] == "exception":
             ctx.h("outside_model", out["outcome"][0])   # an exception model/Tuner.v has no counterpart for
+            continue
+        if any(v != v or v in (float("inf"), float("-inf"))
+               for look in out["record"].get("world", []) for r in look[0] for v in r):
+            # the model's metric values are rationals: runs with NaN / +-inf reports are judged by the independent
+            # checkers only (check_stopping_criterion on the harness's own statistics)
+            ctx.h("outside_model", "nonfinite_metric")
             continue
         if out.get("copy_fault") is not None:
             # a start that failed half-way (copy_checkpoint raised inside start_trial) IS part of model/Tuner.v:
